@@ -212,3 +212,42 @@ Definition item_eqb (a b : name * nat) : bool := name_eqb (fst a) (fst b) && Nat
 Definition count_item (x : name * nat) (l : list (name * nat)) : nat := length (filter (item_eqb x) l).
 Definition listing_eqb (a b : list (name * nat)) : bool :=
   Nat.eqb (length a) (length b) && forallb (fun x => Nat.eqb (count_item x a) (count_item x b)) a.
+
+(* ---- the TOC as encoding/json delivers it: the decoder is an oracle that may fail, may deliver a nil TOC (the JSON text
+   "null") and nil entries ("entries":[null]) ---- *)
+Inductive jdec := JErr | JNull | JToc (es : list (option entry)).
+
+Fixpoint strip_entries (es : list (option entry)) : option (list entry) :=
+  match es with
+  | [] => Some []
+  | None :: _ => None
+  | Some e :: t => match strip_entries t with Some l => Some (e :: l) | None => None end
+  end.
+
+(* parseTOC + initFields after C04-fix-15: a nil TOC and a nil entry are errors (before: nil dereference) *)
+Definition json_run (d : jdec) : outcome (nat * list (name * nat)) :=
+  match d with
+  | JErr => Err
+  | JNull => Err
+  | JToc es => match strip_entries es with
+               | None => Err
+               | Some l => tree_run l
+               end
+  end.
+
+(* ---- capacity hint of a file's chunk table in initFields (C04-fix-10 / C04-fix-16), int64 arithmetic as Go does it.
+   [make_cap c]: make([]*TOCEntry, 0, c) panics for a negative capacity or one beyond [max_cap] elements. ---- *)
+Local Open Scope Z_scope.
+Definition make_cap (max_cap c : Z) : outcome Z := if (c <? 0) || (max_cap <? c) then Panic else Ok c.
+Definition chunk_table_cap (max_cap size cs nentries : Z) : outcome Z :=
+  if (0 <? cs) && (cs <? size) then
+    let n := size / cs in                                   (* no "+ 1" before the comparison *)
+    let n' := if nentries <=? n then nentries - 1 else n in
+    make_cap max_cap (wrap64 (n' + 1))
+  else Ok 0.
+(* the arithmetic before C04-fix-16, kept for the refutation witness: Size/ChunkSize + 1 wraps for Size = MaxInt64 *)
+Definition chunk_table_cap_before_fix16 (max_cap size cs nentries : Z) : outcome Z :=
+  if (0 <? cs) && (cs <? size) then
+    let n := wrap64 (size / cs + 1) in
+    make_cap max_cap (if nentries <? n then nentries else n)
+  else Ok 0.
